@@ -102,6 +102,8 @@ struct Env {
     next_id: RefCell<u64>,
     rebuilds: RefCell<u64>,
     graveyard: RefCell<Vec<std::thread::JoinHandle<()>>>,
+    /// role the endpoint names when a viewer asks for `config.set {key: value}` (canonical key)
+    cfg_req: BTreeMap<String, Level>,
 }
 
 impl Env {
@@ -243,6 +245,15 @@ fn cut(s: &str, n: usize) -> String {
 
 fn fill(v: &J, fx: &Fixture, tpl: &Template) -> J {
     match v {
+        // "$NAME#n" = the placeholder's value in spelling n (domain::respell)
+        J::String(s) if s.starts_with('$') && s.contains('#') => {
+            let (name, how) = s.split_once('#').unwrap();
+            let filled = fill(&J::String(name.to_string()), fx, tpl);
+            match (filled, how.parse::<usize>()) {
+                (J::String(t), Ok(h)) => J::String(domain::respell(&t, h)),
+                (other, _) => other,
+            }
+        }
         J::String(s) => match s.as_str() {
             "$CODE" => json!(fx.pending_code),
             "$ALARM" => json!(fx.alarm_id),
@@ -492,7 +503,21 @@ fn check_group_once(env: &Env, case: &GroupCase, probe: &mut Probe) -> Result<()
         if let Some(a) = auth_member(cred, &env.tpl) {
             obj.insert("auth".into(), a);
         }
-        let line = serde_json::to_string(&J::Object(obj)).unwrap();
+        let line = match &case.raw_params {
+            None => serde_json::to_string(&J::Object(obj)).unwrap(),
+            Some(raw) => {
+                // textual request: `raw` follows `"params":` verbatim
+                let mut t = format!(
+                    "{{\"id\":{id},\"type\":{},\"params\":{raw}",
+                    serde_json::to_string(&case.ty).unwrap()
+                );
+                if let Some(a) = auth_member(cred, &env.tpl) {
+                    t.push_str(&format!(",\"auth\":{a}"));
+                }
+                t.push('}');
+                t
+            }
+        };
         let malformed_auth = matches!(cred, Cred::AuthNumber | Cred::AuthArrayOfAdmin);
         let lvl = domain::level(cred, cfg.token_set);
         let what = describe(case, cred);
@@ -563,6 +588,20 @@ fn check_group_once(env: &Env, case: &GroupCase, probe: &mut Probe) -> Result<()
                 .unwrap_or(false);
             if issued {
                 return fail(fx, "(2) a pairing code was issued to a request at or below the viewer role".into());
+            }
+        }
+        // (4) by effect: whatever the request spelt, a configuration key that was effectively
+        // applied needs the role the endpoint itself demands for that key in canonical spelling
+        if let Some(l) = lvl {
+            for part in &changed {
+                if let Some(key) = part.strip_prefix("cfg:") {
+                    let need = env.cfg_req.get(key).copied().unwrap_or(Level::Engineer);
+                    if l < need {
+                        return fail(fx, format!(
+                            "(4) the setting {key:?} was changed by a credential of role {l:?}; the endpoint requires {need:?} for config.set of {key:?} in its canonical spelling"
+                        ));
+                    }
+                }
             }
         }
         // (2) mutating request types need more than viewer
@@ -1133,7 +1172,7 @@ fn pair_history_from_tape(r: &mut Reader) -> PairHistory {
     ops.push(PairOp::Mint { role: r.pick(3) as u8, n: 1 + r.pick(3) as u8 });
     for _ in 0..n {
         ops.push(match r.weighted(&[5, 4, 5, 2, 1]) {
-            0 => PairOp::Mint { role: r.pick(3) as u8, n: 1 + r.pick(3) as u8 },
+            0 => PairOp::Mint { role: r.weighted(&[4, 4, 4, 1, 1, 1, 1, 1]) as u8, n: 1 + r.pick(3) as u8 },
             1 => PairOp::Tick { how: r.weighted(&[4, 2, 1, 2, 1]) as u8 },
             2 => PairOp::RevokeIdOf { idx: r.pick(16) as u8 },
             3 => PairOp::RevokeAgain,
@@ -1163,6 +1202,7 @@ fn pair_scenarios() -> Vec<(&'static str, Vec<PairOp>)> {
         // running out interleaved with revocation
         ("expiry_interleaved", vec![Mint { role: 2, n: 2 }, Tick { how: 2 }, Mint { role: 2, n: 2 }, RevokeIdOf { idx: 5 }, Tick { how: 3 }, RevokeIdOf { idx: 7 }, Mint { role: 1, n: 1 }, Tick { how: 3 }]),
         ("expiry_then_revoke_dead_id", vec![Mint { role: 1, n: 2 }, Tick { how: 3 }, Tick { how: 3 }, RevokeIdOf { idx: 5 }, Mint { role: 2, n: 2 }, RevokeIdOf { idx: 7 }]),
+        ("role_spellings", vec![Mint { role: 3, n: 1 }, Mint { role: 4, n: 1 }, Mint { role: 5, n: 1 }, Mint { role: 6, n: 1 }, Mint { role: 7, n: 2 }, RevokeIdOf { idx: 4 }]),
         ("revoke_all", vec![Mint { role: 2, n: 2 }, Tick { how: 1 }, Mint { role: 0, n: 1 }, RevokeAll, Mint { role: 2, n: 2 }, RevokeAll, RevokeAgain]),
     ]
 }
@@ -1284,6 +1324,16 @@ fn run_pair_history(
                 } else {
                     probe.label("pairhist_probe=live");
                     let may_write = tk.role >= Level::Engineer;
+                    if ty == "status" && tk.role < Level::Admin {
+                        // no pairing token stands for more than the role pair.list reports
+                        let a = send(env, fx, "pair.list", None, Some(&tk.token))?;
+                        if a.parsed.class.passed_role_gate() || a.parsed.has_result {
+                            return Err(format!(
+                                "after {after}: pair.list (admin only) is served for the pairing token {} which pair.list reports as {:?}: {}",
+                                tk.name, tk.role, cut(&a.raw, 200)
+                            ));
+                        }
+                    }
                     if ty == "status" || may_write {
                         if !s.parsed.class.passed_role_gate() {
                             return Err(format!(
@@ -1309,10 +1359,17 @@ fn run_pair_history(
         let after: String;
         match op {
             PairOp::Mint { role, n } => {
-                let (role_name, role_lvl) = match role % 3 {
-                    0 => ("viewer", Level::Viewer),
-                    1 => ("operator", Level::Operator),
-                    _ => ("engineer", Level::Engineer),
+                // 0-2 canonical; 3-7 spellings the claim handler may or may not accept - the
+                // role such a token stands for is the one pair.list reports for it
+                let (role_name, role_lvl, spelled) = match role % 8 {
+                    0 => ("viewer", Level::Viewer, false),
+                    1 => ("operator", Level::Operator, false),
+                    2 => ("engineer", Level::Engineer, false),
+                    3 => ("Engineer ", Level::Engineer, true),
+                    4 => ("VIEWER", Level::Viewer, true),
+                    5 => (" operator", Level::Operator, true),
+                    6 => ("ADMIN", Level::Engineer, true),
+                    _ => ("admin", Level::Engineer, true),
                 };
                 for _ in 0..(*n).clamp(1, 3) {
                     if toks.len() >= 40 {
@@ -1327,6 +1384,11 @@ fn run_pair_history(
                         .and_then(|v| v["result"]["code"].as_str().map(str::to_string))
                         .unwrap_or_default();
                     let s = send(env, fx, "pair.claim", Some(json!({"code": code, "role": role_name})), admin)?;
+                    if !s.parsed.ok && spelled && s.parsed.class == Class::HandlerError {
+                        // the handler does not accept this spelling of a role: nothing minted
+                        probe.label("pairhist_op=mint_role_spelling_rejected");
+                        continue;
+                    }
                     if !s.parsed.ok {
                         return Err(format!("pair.claim by the administrator with the fresh code is not served: {}", cut(&s.raw, 200)));
                     }
@@ -1344,8 +1406,14 @@ fn run_pair_history(
                         .cloned()
                         .ok_or_else(|| format!("pair.list shows no enabled entry for the token just claimed (tail {})", tail_of(&token)))?;
                     minted += 1;
+                    let role_lvl = if spelled {
+                        probe.label("pairhist_op=mint_role_spelling_accepted");
+                        e["role"].as_str().and_then(Level::parse).unwrap_or(role_lvl)
+                    } else {
+                        role_lvl
+                    };
                     toks.push(Tok {
-                        name: format!("minted{minted}_{role_name}@{now}"),
+                        name: format!("minted{minted}_{}@{now}", role_name.trim()),
                         token,
                         role: role_lvl,
                         id: e["id"].as_str().unwrap_or("").to_string(),
@@ -1527,7 +1595,66 @@ fn run(ctx: &mut RunCtx) {
         next_id: RefCell::new(1000),
         rebuilds: RefCell::new(0),
         graveyard: RefCell::new(Vec::new()),
+        cfg_req: BTreeMap::new(),
     };
+    let mut env = env;
+    // calibrate the parameter-dependent requirement: what does the endpoint demand for each
+    // configuration key in canonical spelling (asked with the viewer token, nothing changes)
+    {
+        let cfg = Cfg { token_set: true, debug_enabled: true, mode_debug: false, paused: false };
+        match env.take(cfg, false) {
+            Ok(mut fx) => {
+                let mut req = BTreeMap::new();
+                let mut dirty = false;
+                for key in env.ex.config_keys.iter() {
+                    let mut m = serde_json::Map::new();
+                    m.insert(key.clone(), fill(&domain::config_value(key), &fx, &env.tpl));
+                    match send(&env, &mut fx, "config.set", Some(J::Object(m)), Some(&env.tpl.tokens.viewer)) {
+                        Ok(s) => {
+                            if let Class::Forbidden(Some(x)) = s.parsed.class {
+                                req.insert(key.clone(), x);
+                            }
+                            if !s.changed.is_empty() {
+                                dirty = true;
+                            }
+                        }
+                        Err(_) => dirty = true,
+                    }
+                }
+                env.put_back(fx, dirty);
+                env.cfg_req = req;
+            }
+            Err(e) => env.infra(format!("fixture: {e}")),
+        }
+    }
+    let env = env;
+    {
+        let by_endpoint: BTreeSet<String> = env
+            .cfg_req
+            .iter()
+            .filter(|(_, l)| **l > Level::Engineer)
+            .map(|(k, _)| k.clone())
+            .collect();
+        let uncalibrated: Vec<&String> = env.ex.config_keys.iter().filter(|k| !env.cfg_req.contains_key(*k)).collect();
+        let unprobed: Vec<&String> = env
+            .ex
+            .config_keys
+            .iter()
+            .filter(|k| !fixture::PROBED_CONFIG_KEYS.contains(&k.as_str()))
+            .collect();
+        ctx.note(format!(
+            "parameter-dependent requirements in the role table: types {:?}; config.set: {} keys known to the handler, singled out by required_role_for_config_set: {:?}; above engineer according to the endpoint's own refusals: {:?}; not calibrated: {:?}; keys without a probe part of their own: {:?}",
+            env.ex.param_dependent,
+            env.ex.config_keys.len(),
+            env.ex.config_sensitive,
+            by_endpoint,
+            uncalibrated,
+            unprobed
+        ));
+        if env.ex.param_dependent.iter().any(|t| t != "config.set") {
+            ctx.note("a request type other than config.set has a parameter-dependent requirement: its parameters are only covered by the generic spelling cases".to_string());
+        }
+    }
 
     // ---- the grid: every type found in the sources x valid params x config x credential
     if ctx.only_replay.is_none() {
@@ -1548,6 +1675,7 @@ fn run(ctx: &mut RunCtx) {
                         shape: "valid".into(),
                         params: p,
                         extra: None,
+                        raw_params: None,
                         creds: domain::GRID_CREDS.to_vec(),
                     });
                 }
@@ -1567,9 +1695,28 @@ fn run(ctx: &mut RunCtx) {
                         shape: "valid".into(),
                         params: domain::valid_params(ty)[0].clone(),
                         extra: None,
+                        raw_params: None,
                         creds: domain::GRID_CREDS.to_vec(),
                     });
                 }
+            }
+        }
+        // the debugger already paused when the request arrives: every debug-class type, every
+        // configuration (a gate that looks at the debugger's state must not open while
+        // debugging is disabled)
+        for cfg in domain::all_cfgs() {
+            let cfg = Cfg { paused: true, ..cfg };
+            for ty in types.iter().filter(|t| env.debug_class.contains(*t)) {
+                groups.push(GroupCase {
+                    cfg,
+                    ty: ty.clone(),
+                    schema_of: ty.clone(),
+                    shape: "valid".into(),
+                    params: domain::valid_params(ty)[0].clone(),
+                    extra: None,
+                    raw_params: None,
+                    creds: vec![Cred::None, Cred::Viewer, Cred::Operator, Cred::Engineer, Cred::Admin],
+                });
             }
         }
         ctx.note(format!("grid: {} request templates x {} credentials", groups.len(), domain::GRID_CREDS.len()));
@@ -1591,11 +1738,40 @@ fn run(ctx: &mut RunCtx) {
                     shape: "wrong_typed".into(),
                     params: Some(p),
                     extra: None,
+                    raw_params: None,
                     creds: vec![Cred::Admin, Cred::Viewer],
                 });
             }
         }
         ctx.note(format!("robustness sweep: {} request templates x 2 credentials", groups.len() - n_grid));
+        // spellings: keys the role decision singles out in every non-canonical spelling and
+        // structure; every other key in the blank/tab/NBSP spellings; every string member
+        // value (addresses, targets, roles, modes, ids, codes) and member name respelt
+        let n_before = groups.len();
+        let tok_cfg = Cfg { token_set: true, debug_enabled: true, mode_debug: false, paused: false };
+        let open_cfg = Cfg { token_set: false, debug_enabled: true, mode_debug: true, paused: false };
+        let mut above_engineer: BTreeSet<String> = env.ex.config_sensitive.clone();
+        above_engineer.extend(env.cfg_req.iter().filter(|(_, l)| **l > Level::Engineer).map(|(k, _)| k.clone()));
+        for key in env.ex.config_keys.iter() {
+            if above_engineer.contains(key) {
+                groups.extend(domain::config_spelling_cases(tok_cfg, key, true));
+                groups.extend(domain::config_spelling_cases(open_cfg, key, false));
+            } else {
+                groups.extend(domain::config_spelling_cases(tok_cfg, key, false));
+            }
+        }
+        for key in above_engineer.iter().filter(|k| !env.ex.config_keys.contains(*k)) {
+            groups.extend(domain::config_spelling_cases(tok_cfg, key, true));
+        }
+        let n_cfg_spell = groups.len() - n_before;
+        for ty in &types {
+            groups.extend(domain::value_spelling_cases(tok_cfg, ty));
+        }
+        ctx.note(format!(
+            "spelling cases: {} config.set key spellings/structures x 4 roles, {} respelt member values/names",
+            n_cfg_spell,
+            groups.len() - n_before - n_cfg_spell
+        ));
         for (i, g) in groups.iter().enumerate() {
             if i % ctx.nworkers.max(1) != ctx.worker {
                 continue;
